@@ -9,8 +9,8 @@ Open Scope Z_scope.
 
 Ltac bridge := intros; cbv beta delta [gen_mc_len gen_mc_new_starts gen_mc_offset gen_mc_offset_operand gen_mc_entry_starts
   gen_mc_entry_ends gen_mc_field_start gen_mc_ravel_view gen_cat_offsets gen_cat_field_start gen_cat_entry_start
-  gen_cat_entry_end gen_cat_contiguous gen_range_len gen_range_len_sep gen_bam_mc_len gen_bam_mc_new_starts
-  gen_bam_mc_entry_starts gen_bam_mc_entry_ends gen_delim_field_start gen_delim_entry_end gen_sam_cell_ends
+  gen_cat_entry_end gen_cat_contiguous gen_range_len gen_range_len_sep gen_bam_mc_len gen_bam_gather_view
+  gen_delim_field_start gen_delim_entry_end gen_sam_cell_ends
   gen_sam_drop_cell gen_sam_tag_first gen_sam_tag_step gen_sam_tag_empty
   m_rec_len m_new_starts m_offset m_rebase m_shift m_range_len m_delim_start m_delim_entry_end m_sam_cell_ends
   m_sam_drop_cell m_sam_tag_first m_sam_tag_empty insert0] zeta;
@@ -42,9 +42,12 @@ Lemma b_bam_getitem : forall sel x,
   = (x_data (getitem sel x), x_es (getitem sel x), x_ee (getitem sel x), x_contig (getitem sel x)).
 Proof. reflexivity. Qed.
 Lemma b_bam_mc_len : forall s e, gen_bam_mc_len s e = m_rec_len s e. Proof. bridge. Qed.
-Lemma b_bam_mc_new_starts : forall lens, gen_bam_mc_new_starts lens = m_new_starts lens. Proof. bridge. Qed.
-Lemma b_bam_mc_entry_starts : forall ns, gen_bam_mc_entry_starts ns = removelast ns. Proof. bridge. Qed.
-Lemma b_bam_mc_entry_ends : forall ns, gen_bam_mc_entry_ends ns = tl ns. Proof. bridge. Qed.
+Lemma b_bam_gather_view : forall nl lens, gen_bam_gather_view nl lens = (nl, lens). Proof. bridge. Qed.
+(* which extractor compacts itself in place when written, which one only gathers the bytes *)
+Lemma b_mc_inplace : gen_mc_inplace = inplace_compaction (FDelim 0) /\ gen_mc_inplace = inplace_compaction FSam
+  /\ gen_mc_inplace = inplace_compaction FFastq /\ gen_mc_inplace = inplace_compaction FFasta.
+Proof. repeat split. Qed.
+Lemma b_bam_mc_inplace : gen_bam_mc_inplace = inplace_compaction FBam. Proof. reflexivity. Qed.
 Lemma b_delim_field_start : forall d, gen_delim_field_start d = m_delim_start d. Proof. bridge. Qed.
 Lemma b_delim_entry_end : forall e, gen_delim_entry_end e = m_delim_entry_end e. Proof. bridge. Qed.
 (* the statement order in _get_buffer_extractor decides which variant of the model is the current one *)
@@ -68,27 +71,17 @@ Definition gen_make_contiguous (x : ext) : ext :=
 Lemma b_make_contiguous : forall x, gen_make_contiguous x = make_contiguous x.
 Proof. reflexivity. Qed.
 
-Definition gen_bam_make_contiguous (x : ext) : ext :=
+(* BAM: a write gathers the selected records' bytes in selection order — exactly the bytes the model writes — and
+   (b_bam_mc_inplace) leaves the extractor as it is *)
+Definition gen_bam_gather (x : ext) : list Z :=
   let lens := zip_with (fun e s => gen_bam_mc_len s e) (x_ee x) (x_es x) in
-  let new_starts := gen_bam_mc_new_starts lens in
-  {| x_data := ragged_ravel (x_data x) (x_es x) lens; x_fs := x_fs x; x_fl := x_fl x;
-     x_es := gen_bam_mc_entry_starts new_starts; x_ee := gen_bam_mc_entry_ends new_starts; x_contig := true |}.
-(* BAM records carry no field table: on such an extractor the text compaction is the BAM compaction *)
-Lemma b_bam_make_contiguous : forall x, Forall (fun r => r = []) (x_fs x) -> length (x_fs x) = length (x_es x) ->
-  length (x_ee x) = length (x_es x) -> gen_bam_make_contiguous x = make_contiguous x.
-Proof.
-  intros x Hf L1 L2. unfold gen_bam_make_contiguous, make_contiguous. f_equal.
-  change (gen_bam_mc_new_starts (zip_with (fun e s => gen_bam_mc_len s e) (x_ee x) (x_es x)))
-    with (0 :: cumsum (vsub (x_ee x) (x_es x))).
-  set (offs := vsub (x_es x) (removelast (0 :: cumsum (vsub (x_ee x) (x_es x))))).
-  assert (Lo : length offs = length (x_es x)).
-  { unfold offs, cumsum. rewrite removelast_cumsum. unfold vsub. rewrite !zip_with_length.
-    assert (Ls : forall a l, length (starts_from a l) = length l) by (intros a l; revert a; induction l; simpl; auto).
-    rewrite Ls, zip_with_length. lia. }
-  revert Hf L1 Lo. generalize offs. generalize (x_es x). generalize (x_fs x).
-  induction l as [|r rs IH]; intros es [|o os] Hf L1 Lo; destruct es; simpl in *; try discriminate; auto.
-  inversion Hf; subst. simpl. f_equal. apply (IH es os); auto.
-Qed.
+  ragged_ravel (x_data x) (fst (gen_bam_gather_view (x_es x) lens)) (snd (gen_bam_gather_view (x_es x) lens)).
+Lemma b_bam_gather : forall x, gen_bam_gather x = x_data (make_contiguous x).
+Proof. reflexivity. Qed.
+Lemma b_bam_write : forall v x, x_contig x = false -> write v FBam (SLazy x []) = Some (gen_bam_gather x).
+Proof. intros v x H. simpl. unfold contiguous. rewrite H. reflexivity. Qed.
+Lemma b_bam_touch : forall s, touch FBam s = s.
+Proof. reflexivity. Qed.
 
 Definition gen_concatenate (xs : list ext) : ext :=
   let offs := gen_cat_offsets (map (fun b => len (x_data b)) xs) in
